@@ -112,3 +112,23 @@ def node_phase(chk, ids, mates, draws, pool, n_mates=40, n_draws=20, n_pool=20, 
                 drifts.append({"what": d["what"], "detail": d.get("detail"), "source": ef, "at": d.get("at")})
     tot["aborted_inside_tree"] = tot["counts"].get("X", 0)
     return viols, drifts, tot
+
+
+def standard(chk, ids, scale=1.0, stops=(), label="nodes"):
+    """node_phase on the usual pools (TLC-generated near-mate endings and draw-by-next-move positions, bench / perft
+    roots, walk positions); `scale` multiplies the number of sessions.  Reports violations and drift into `chk`."""
+    q = chk.quick
+    mates = searches.mate_positions(chk, [chk.seed % 7] if q else [chk.seed % 7, (chk.seed + 3) % 7], 40 if q else 8)
+    draws = searches.draw_positions(chk, [chk.seed % 8] if q else [chk.seed % 8, (chk.seed + 3) % 8], 24 if q else 6)
+    pool = searches.root_positions() + searches.walk_positions(chk, 60 if q else 400)
+    k = scale * (1 if q else 8)
+    nv, ndrift, nstat = node_phase(chk, ids, mates, draws, pool, n_mates=int(40 * k), n_draws=int(20 * k), n_pool=int(20 * k),
+                                   stops=stops, label=label)
+    for w, what, det, ef in nv:
+        chk.violation(w, what, det, replay={"kind": "node-trace", "trace": ef, "line": det["report"].get("at"),
+                                            "how": "harness `nodes <jobs> <out>` on the session of the named root; Trace_Nodes.tla on <out>"})
+    chk.drift += ndrift
+    if nstat["counts"].get("M", 0) == 0:
+        raise vlib.ToolError("vacuous node traces: %s" % nstat)
+    chk.cov["node_traces"] = nstat
+    return nstat
